@@ -69,7 +69,8 @@ PROPS["C04"] = {
     "quick": [{"module": "MC_SESSION", "cfg": "MC_C04M_quick.cfg", "nprimes": 6, "sample_mod": 8,
                "require_acts": ["Multiply", "Hadamard", "GetDensity", "Normalize", "Product", "Slice", "Query"]},
               {"module": "MC_SESSION", "cfg": "MC_C04C_quick.cfg", "nprimes": 6,
-               "require_acts": ["Transform", "CondOnX", "SetY", "UpdateSigma", "ConditionOn", "Marginal", "Update", "Slice"]}],
+               "require_acts": ["Transform", "CondOnX", "SetY", "UpdateSigma", "ConditionOn", "Marginal", "Update", "Slice"]},
+              {"kind": "b2", "traces": 120, "length": 8, "family": "MC", "nprimes": 10}],
     "level_text": "The session state machine is explored exhaustively by TLC (every operation sequence up to the depth, cache-warming queries interleaved; invariant: every populated cache of every live object equals the value derived from its defining parameters, for the implementation-shaped cache formulas incl. Sherman-Morrison, determinant lemma, covariance reuse, diagonal inversion); every explored history is replayed into the code and every cache field the code exposes is compared with the exactly derived value after every step.",
     "level_note": _LN + " History depth is bounded (see cfg); deeper histories are sampled in the thorough tier.",
     "explanation": "family M: measure/factor algebra; family C: conditionals, transformations, likelihood factors, marginals, update",
@@ -128,11 +129,17 @@ PROPS["C17"]["level_note"] = ("NOT DECIDED by this technique: validity and tight
 
 import os as _os
 _SPEC = _os.path.join(_os.path.dirname(_os.path.dirname(_os.path.abspath(__file__))), "spec")
+PROPS["C12"]["quick"].append({"kind": "b2", "traces": 80, "length": 6, "family": "MC", "nprimes": 10})
+PROPS["C02"]["quick"].append({"kind": "b2", "traces": 60, "length": 6, "family": "MC", "nprimes": 10})
 _THOROUGH_SAMPLING = {"MC_C04M_thorough.cfg": 40, "MC_C04C_thorough.cfg": 24, "MC_C12M_thorough.cfg": 60, "MC_C12C_thorough.cfg": 12}
 for _pid, _sp in PROPS.items():
     _th = []
     for _i in _sp["quick"]:
         _t = dict(_i)
+        if _t.get("kind") == "b2":
+            _t.update(traces=_t["traces"] * 10, length=12, nprimes=14)
+            _th.append(_t)
+            continue
         _cand = _i["cfg"].replace("_quick.cfg", "_thorough.cfg")
         if _os.path.exists(_os.path.join(_SPEC, _cand)):
             _t["cfg"] = _cand
